@@ -6,14 +6,11 @@ use std::str::FromStr;
 
 fn digit(d: u8) -> u8 { b'0' + (d % 10) }
 
-// ipnet's IpNet::from_str REJECTS a bare address (it requires `/prefix`), std's IpAddr::from_str accepts it
+// ipnet's IpNet::from_str REJECTS a bare address (it requires `/prefix`)
 pub fn c18_plain_ip_parsers_body(a: u8, b: u8, c: u8, d: u8) {
     let buf = [digit(a), b'.', digit(b), b'.', digit(c), b'.', digit(d)];
     let s = core::str::from_utf8(&buf).unwrap();
     assert!(IpNet::from_str(s).is_err());
-    let ip = std::net::IpAddr::from_str(s);
-    assert!(ip.is_ok());
-    assert!(ip.unwrap() == std::net::IpAddr::V4(std::net::Ipv4Addr::new(a % 10, b % 10, c % 10, d % 10)));
 }
 #[cfg(kani)]
 #[kani::proof]
